@@ -123,6 +123,12 @@ pub struct Config {
     /// finer park points for run-time registration (after the receive, before the reducers lock)
     #[serde(default)]
     pub fine_reg: bool,
+    /// free runs: scripted reducers / delivery-thread callbacks sleep up to this many microseconds, so that
+    /// producers get ahead of the reducer and channeled subscribers fall behind (timing is not modelled)
+    #[serde(default)]
+    pub slow_reduce_us: u64,
+    #[serde(default)]
+    pub slow_deliver_us: u64,
 }
 fn store_name() -> String {
     "store".into()
@@ -253,6 +259,9 @@ impl Reducer<St, Act> for SReducer {
     fn reduce(&self, state: &St, action: &Act) -> DispatchOp<St, Act> {
         self.env
             .cb("reduce", &self.id, state.json(), action.id, json!([]));
+        if self.env.cfg.slow_reduce_us > 0 {
+            std::thread::sleep(std::time::Duration::from_micros(self.env.next_rand() % self.env.cfg.slow_reduce_us));
+        }
         let mut ns = state.clone();
         ns.0.push((self.id.clone(), action.id));
         let entry = self
@@ -464,6 +473,9 @@ impl Subscriber<St, Act> for SSubscriber {
     fn on_notify(&self, state: &St, action: &Act) {
         self.env
             .cb("notify", &self.id, state.json(), action.id, json!([]));
+        if self.env.cfg.slow_deliver_us > 0 && sched().current_role().contains("Ch") {
+            std::thread::sleep(std::time::Duration::from_micros(self.env.next_rand() % self.env.cfg.slow_deliver_us));
+        }
         if let Some(b) = &self.fwd {
             if self.env.epoch != sched().epoch() {
                 return;
